@@ -11,7 +11,7 @@ from harness.core import Check, Outcome, SubCheck
 def fifo_case(draw, broker):
     prio = draw(st.sampled_from([0, 5, 5, 9]))
     foreign = draw(st.booleans())
-    mode = draw(st.sampled_from(["drain", "drain", "interleaved", "rejects"]))
+    mode = draw(st.sampled_from(["drain", "drain", "interleaved", "rejects", "foreign-run"]))
     ops = []
 
     def enq(n):
@@ -42,6 +42,25 @@ def fifo_case(draw, broker):
                 ops += [dict(consume), {"op": "ack", "c": 0, "i": 0}]
         for _ in range(20):
             ops += [dict(consume), {"op": "ack", "c": 0, "i": 0}]
+    elif mode == "foreign-run":
+        # a run of foreign-topic messages at the old end that fills (at least) one fetch window, matching ones behind it,
+        # deliveries returned and re-awaited, more arrivals meanwhile
+        for _ in range(draw(st.integers(10, 14))):
+            ops.append({"op": "enq", "q": "qf", "topic": "tF", "prio": prio, "delay": None, "payload": "", "client": "p0"})
+        start = {**start, "topics": ["t0"]}
+        m = draw(st.integers(3, 8))
+        for _ in range(m):
+            ops.append({"op": "enq", "q": "qf", "topic": "t0", "prio": prio, "delay": None, "payload": "", "client": "p0"})
+        ops.append(start)
+        for _ in range(m + 6):
+            ops.append(dict(consume))
+            r = draw(st.integers(0, 3))
+            if r == 0:
+                ops.append({"op": "reject", "c": 0, "i": 0})
+                if draw(st.booleans()):
+                    ops.append({"op": "enq", "q": "qf", "topic": "t0", "prio": prio, "delay": None, "payload": "", "client": "p0"})
+            else:
+                ops.append({"op": "ack", "c": 0, "i": 0})
     else:
         n = draw(st.integers(2, 14))
         enq(n)
@@ -128,7 +147,7 @@ def run(case: dict) -> Outcome:
             waiting.remove(id_)
     # everything matching must have been delivered by the end (the history drains the queue)
     undelivered = [i for i in waiting]
-    if undelivered and case["mode"] != "rejects":
+    if undelivered and case["mode"] not in ("rejects", "foreign-run"):
         drained = sum(1 for k, _ in seq if k == "deliver")
         timeouts = sum(1 for e in w.events if e["op"]["op"] == "consume" and e.get("timeout"))
         if timeouts >= 2:
